@@ -203,7 +203,9 @@ class Simplifier(pysmt.walkers.DagWalker):
         sl = args[0]
         sr = args[1]
 
-        if sl.is_constant() and sr.is_constant():
+        if sl.is_constant() and sr.is_constant() and \
+           not sl.is_array_value() and not sr.is_array_value():
+            # (constant array values have no constant_value to compare)
             l = sl.constant_value()
             r = sr.constant_value()
             return self.manager.Bool(l == r)
